@@ -347,6 +347,13 @@ func numfCase(r *Run, line string, x *V, steps []numStep) string {
 			r.Violate("C17", "inexact-result", line, fmt.Sprintf("%s: exact result %s, got %v", src, want.RatString(), out))
 			break
 		}
+		// "ceil and floor return integers": the value handed on is a Go int (an integer divisor makes divided_by
+		// an integer division, so a float 3.0 in its place changes what the next filter computes)
+		if last := steps[len(steps)-1].Name; last == "ceil" || last == "floor" {
+			if v := Reify(out); v.Kind != 'i' {
+				r.Violate("C17", "ceil-floor-return-integers", line, fmt.Sprintf("%s returns %T(%v), not an integer", src, out, out))
+			}
+		}
 		if want.IsInt() {
 			// a whole result below 10^21 is written as plain digits that denote the same float64
 			// (from 2^53 on strconv's shortest digits are zero-padded: 108086391056891900 for …904)
@@ -384,7 +391,7 @@ func numUniverse() []*V {
 	for k := -12; k <= 12; k++ {
 		out = append(out, VFlt(1, float64(k)/4))
 	}
-	for _, s := range []string{"3", "2.5", "-1", " 1", "x", ""} {
+	for _, s := range []string{"3", "2.5", "-1", " 1", "x", "", "010", "0017", "08"} {
 		out = append(out, VStr(s))
 	}
 	return append(out, VNil(), VBool(true))
@@ -466,7 +473,7 @@ func numfStream(r *Run) {
 		case 6:
 			return VInt(g.Intn(10), int64(g.Intn(100)))
 		case 7:
-			return VStr(g.Pick([]string{"3", "2.5", "-1", "0.125", "1e2", "12", "-0.75", "x", " 1", "", "1.5e1", "abc", "7 "}))
+			return VStr(g.Pick([]string{"3", "2.5", "-1", "0.125", "1e2", "12", "-0.75", "x", " 1", "", "1.5e1", "abc", "7 ", "010", "0017", "09", "-012", "00.5"}))
 		default:
 			return VInt(0, int64(g.Intn(25)-12))
 		}
